@@ -74,22 +74,6 @@ theorem dropMux_chan (p : ProxyS) (m : MuxL) : (p.dropMux m).1.mw.chan = p.mw.ch
   · exact mwNoread_chan { p.mw with buf := [] } m
   · rfl
 
-theorem cleanup_grows (p : ProxyS) (m : MuxL) (e : ESock) (se : Bool) :
-    Grows p.mw.chan m (p.cleanup m e se).2.1 := by
-  unfold ProxyS.cleanup
-  by_cases hf : p.sockFirst = true
-  · simp only [hf, ↓reduceIte]
-    have h1 := dropMux_grows p.dropSock m
-    rw [dropSock_chan] at h1
-    have h2 := finish_grows (p.dropSock.dropMux m).1 (p.dropSock.dropMux m).2 e se
-    rw [dropMux_chan, dropSock_chan] at h2
-    exact h1.trans h2
-  · simp only [hf, Bool.false_eq_true, ↓reduceIte]
-    have h1 := dropMux_grows p m
-    have h2 := finish_grows (p.dropMux m).1.dropSock (p.dropMux m).2 e se
-    rw [dropSock_chan, dropMux_chan] at h2
-    exact h1.trans h2
-
 theorem preSelect_grows (p : ProxyS) (m : MuxL) : Grows p.mw.chan m (p.preSelectFlags m).2 := by
   unfold ProxyS.preSelectFlags
   by_cases hf : p.sockFirst = true
@@ -101,6 +85,40 @@ theorem preSelect_grows (p : ProxyS) (m : MuxL) : Grows p.mw.chan m (p.preSelect
     by_cases hs : (if p.mw.shutW = true then p.sw.noread else p.sw).shutW = true
     · rw [if_pos hs]; exact mwNoread_grows p.mw m
     · rw [if_neg hs]; exact Grows.refl ..
+
+theorem preSelect_chan (p : ProxyS) (m : MuxL) : (p.preSelectFlags m).1.mw.chan = p.mw.chan := by
+  unfold ProxyS.preSelectFlags
+  by_cases hf : p.sockFirst = true
+  · simp only [hf, ↓reduceIte]
+    split
+    · exact mwNoread_chan p.mw m
+    · rfl
+  · simp only [hf, Bool.false_eq_true, ↓reduceIte]
+    by_cases hs : (if p.mw.shutW = true then p.sw.noread else p.sw).shutW = true
+    · rw [if_pos hs]; exact mwNoread_chan p.mw m
+    · rw [if_neg hs]
+
+theorem cleanup_grows (p : ProxyS) (m : MuxL) (e : ESock) (se : Bool) :
+    Grows p.mw.chan m (p.cleanup m e se).2.1 := by
+  unfold ProxyS.cleanup
+  by_cases hf : p.sockFirst = true
+  · simp only [hf, ↓reduceIte]
+    have h1 := dropMux_grows p.dropSock m
+    rw [dropSock_chan] at h1
+    have h2 := preSelect_grows (p.dropSock.dropMux m).1 (p.dropSock.dropMux m).2
+    rw [dropMux_chan, dropSock_chan] at h2
+    have h3 := finish_grows ((p.dropSock.dropMux m).1.preSelectFlags (p.dropSock.dropMux m).2).1
+      ((p.dropSock.dropMux m).1.preSelectFlags (p.dropSock.dropMux m).2).2 e se
+    rw [preSelect_chan, dropMux_chan, dropSock_chan] at h3
+    exact (h1.trans h2).trans h3
+  · simp only [hf, Bool.false_eq_true, ↓reduceIte]
+    have h1 := dropMux_grows p m
+    have h2 := preSelect_grows (p.dropMux m).1.dropSock (p.dropMux m).2
+    rw [dropSock_chan, dropMux_chan] at h2
+    have h3 := finish_grows ((p.dropMux m).1.dropSock.preSelectFlags (p.dropMux m).2).1
+      ((p.dropMux m).1.dropSock.preSelectFlags (p.dropMux m).2).2 e se
+    rw [preSelect_chan, dropSock_chan, dropMux_chan] at h3
+    exact (h1.trans h2).trans h3
 
 theorem callback_grows (p : ProxyS) (m : MuxL) (e : ESock) (io : CbIo) (p' : ProxyS) (m' : MuxL) (e' : ESock)
     (h : p.callback m e io = .ok p' m' e') : Grows p.mw.chan m m' := by
